@@ -1,5 +1,5 @@
 (* Properties/C11.v — Everything storrent sends to a peer is protocol-conformant. *)
-From Storrent Require Import Base.Bytes Base.Bencode Gen.Consts Model.Wire Model.PeerCore Proof.PeerCore Proof.Pex.
+From Storrent Require Import Base.Bytes Base.Bencode Gen.Consts Model.Wire Model.PeerCore Proof.PeerCore Proof.Pex Proof.NoDupReqs.
 Open Scope N_scope.
 
 (* Every message that maybeRequest's loop adds to the wire, for ANY number of loop
@@ -68,3 +68,14 @@ Theorem c11_pex_refines : forall a sub added dropped,
   s_pexst (a_st (send_pex a)) = g_st (pstep {| g_st := s_pexst (a_st a); g_wire := [] |} (PTick true)).
 Proof. exact send_pex_is_tick. Qed.
 Print Assumptions c11_pex_refines.
+
+(* A block is never queued or outstanding twice at a peer: every step of the peer core (any
+   message, command, tick, oracle values) keeps the queued and the requested blocks free of
+   duplicates.  A Request is written exactly when a block moves from the queue to the requested
+   list (c11_requests_send_time), so no request is duplicated while it is outstanding. *)
+Theorem c11_no_duplicate_requests : forall s ballast o k,
+  NoDup (rq_queue (s_reqs s) ++ map fst (rq_requested (s_reqs s))) ->
+  let s' := a_st (fst (step s ballast o k)) in
+  NoDup (rq_queue (s_reqs s') ++ map fst (rq_requested (s_reqs s'))).
+Proof. exact step_nodup. Qed.
+Print Assumptions c11_no_duplicate_requests.
